@@ -548,7 +548,18 @@ def m_opaque_eq(ctx):
                     d = x.when.get(vname)
                     # one scalar payload on both sides: equal values have equal payloads
                     px, py = x.variants[vname], y.variants[vname]
-                    if len(px) == 1 and len(py) == 1:
+                    def summary(v_):
+                        # does the payload stand for *any* element of a sequence (then it must not be refined)?
+                        for n_ in range(5):
+                            if isinstance(v_, Ref) and v_.cell is not None:
+                                if any(pe and pe[0] == "elem" for pe in v_.path):
+                                    return True
+                                v_ = ctx.deref(v_, "eqs%d" % n_)
+                            else:
+                                break
+                        return False
+
+                    if len(px) == 1 and len(py) == 1 and not summary(px[0]):
                         sx_, sy_ = through(px[0], "eqpx"), through(py[0], "eqpy")
                         if isinstance(sx_, Scalar) and isinstance(sy_, Scalar):
                             ivy = S.ivof(sy_.sym)
